@@ -355,7 +355,9 @@ MODES = [
     "bare-name+PATH-in-env",         # 3 command=BARE_NAME, env PATH names <tmp>/s<i>/bin                 record: s<i>/bin
     "absolute-wrapper+PATH-in-env",  # 4 command=<tmp>/s<i>/bin/BARE_NAME (control), same env             record: s<i>/bin
     "bare-name+env-absent",          # 5 command=BARE_NAME, env absent: the default env's PATH decides    record: s<i>/bin
+    "command-does-not-exist",        # 6 command=<tmp>/s<i>/no-such-program: this server cannot start      record: s<i> (stays empty)
 ]
+CANNOT_START = 6
 PATH_FORMS = [("only", "{d}"), ("first", "{d}:/usr/bin:/bin"), ("last", "/usr/bin:/bin:{d}")]
 # the harness process's own PATH during the case (restored afterwards)
 HOST_PATHS = ["plain", "decoy-prepended", "decoy-appended", "own-prepended"]
@@ -406,6 +408,9 @@ def server_spec(i: int, shape: List[int], tmp: str) -> Dict[str, Any]:
             raise core.HarnessError("grammar: mode bare-name+env-absent needs env absent or {}")
         command, cargs, env, sink = BARE_NAME, args, base, bindir
         exp_argv = [WITNESS_PY, prog] + args
+    elif m == CANNOT_START:
+        command, cargs, env, sink = os.path.join(own, "no-such-program"), args, base, own
+        exp_argv = [command] + cargs
     else:
         raise core.HarnessError(f"grammar: unknown mode {m}")
     entry: Dict[str, Any] = {"command": command, "args": cargs}
@@ -432,6 +437,8 @@ def shape_text(shape: List[int]) -> str:
         out += f" [{what}; env also has PATH={PATH_FORMS[pf][1].format(d='<own dir>/bin')}]"
     elif m == 5:
         out += f" [command={BARE_NAME!r} (bare)]"
+    elif m == CANNOT_START:
+        out += " [command=<own dir>/no-such-program: cannot start]"
     return out
 
 
@@ -475,6 +482,8 @@ def _build(cfg: Dict[str, Any], tmp: str, path_override: Optional[str] = None,
         m = sp["mode"]
         if m == 0:
             shutil.copyfile(WITNESS_SRC, os.path.join(sp["own"], "witness.py"))
+        elif m == CANNOT_START:
+            pass
         elif m in (1, 2):
             os.makedirs(os.path.join(tmp, "shared"), exist_ok=True)
             shutil.copyfile(WITNESS_SRC, os.path.join(tmp, "shared", "witness.py"))
@@ -619,13 +628,38 @@ def _drive_run_command(path: str, names: List[str], cmdkind: str, rec: Dict[str,
             await _body(server_streams)
             return True
         fn = interactive_mode
-    else:
+    elif cmdkind == "chat_run":
+        async def chat_run(server_streams, server_info=None):
+            rec["server_info_names"] = None if server_info is None else [i.get("name") for i in server_info]
+            await _body(server_streams)
+            return None      # not a "clean exit"
+        fn = chat_run
+    elif cmdkind == "interactive_mode-without-server_info":
+        async def interactive_mode(server_streams):  # noqa: F811 - an older command signature: no server_info parameter
+            await _body(server_streams)
+            return True
+        fn = interactive_mode
+    elif cmdkind == "raises":
+        async def failing_command(server_streams):
+            await _body(server_streams)
+            raise RuntimeError("command failed")
+        fn = failing_command
+    elif cmdkind == "keyboard-interrupt":
+        async def interrupted_command(server_streams):
+            await _body(server_streams)
+            raise KeyboardInterrupt()
+        fn = interrupted_command
+    elif cmdkind == "plain":
         async def plain_command(server_streams):
             await _body(server_streams)
         fn = plain_command
+    else:
+        raise core.HarnessError(f"unknown command kind {cmdkind!r}")
 
     try:
         run_command(fn, path, list(names))
+    except KeyboardInterrupt:
+        rec["error"] = "KeyboardInterrupt"
     except Exception as e:  # noqa: BLE001
         rec["error"] = _exc_name(e)
 
@@ -650,6 +684,8 @@ def _probe_loader(path: str, name: str) -> str:
 # one case
 # ---------------------------------------------------------------------------
 def case_text(cfg: Dict[str, Any]) -> str:
+    if "cli" in cfg:
+        return cli_text(cfg["cli"])
     if "sequence" in cfg:
         (s1, e1), (s2, e2) = cfg["sequence"]
         how = "rewritten in place" if cfg.get("stamp") != "same-size-same-mtime" else \
@@ -703,6 +739,8 @@ def run_one(ctl: explorer.Ctl, cfg: Dict[str, Any]) -> Dict[str, Any]:
     try:
         if "sequence" in cfg:
             return _run_sequence(cfg, tmp, pids)
+        if "cli" in cfg:
+            return _run_cli_case(cfg, tmp, pids)
         return _run_case(cfg, tmp, pids)
     finally:
         # whatever happened: no child of this case survives, nothing stays on disk
@@ -905,6 +943,13 @@ def _run_case(cfg: Dict[str, Any], tmp: str, pids: List[int], root: Optional[str
             req = [i for i in members if i in requested_idx] if judged_valid else []
             off = int(cfg.get("name_offset") or 0)
             who = [NAMES[i + off] for i in members]
+            if req and specs[req[0]]["mode"] == CANNOT_START:
+                # its program does not exist: nothing can be launched; the runner must say so and carry on with the others
+                if entry == "run_command" and not diag:
+                    add({"class": "malformed-config-not-reported", "entry": entry, "malformed": "command-does-not-exist",
+                         "how": "silent"}, f"run_command printed nothing about server {who!r} whose command does not exist")
+                per_sink.append({"servers": who, "requested": len(req), "launches": len(ls), "cannot_start": True})
+                continue
             summary: Dict[str, Any] = {"servers": who, "requested": len(req), "launches": len(ls)}
             if not req:
                 if ls:
@@ -981,6 +1026,9 @@ def _run_case(cfg: Dict[str, Any], tmp: str, pids: List[int], root: Optional[str
 
         obs["servers"] = per_sink
         obs["decoy_launches"] = len(decoy_launches)
+        if entry == "run_command" and judged_valid and "error" in rec and not timed_out:
+            add({"class": "run_command-raised", "command": cfg.get("cmdkind") or "plain", "error": rec["error"]},
+                f"run_command let {rec['error']} escape (command function kind {cfg.get('cmdkind')!r})")
 
         # -- documented loader return value (entry load_config only)
         if entry == "load_config" and not mal and rec.get("loader") == "ok":
@@ -1034,6 +1082,294 @@ def _run_case(cfg: Dict[str, Any], tmp: str, pids: List[int], root: Optional[str
         obs["counters"] = {"witness_launches": sum(len(x) for x in launches.values()) + len(decoy_launches),
                            "handshakes_seen_by_witness": n_handshake}
         return obs
+
+
+
+# ---------------------------------------------------------------------------
+# the command line itself: chuk_mcp.__main__.main() with an argument vector, a working directory and a HOME
+# ---------------------------------------------------------------------------
+# the five default locations main() documents (find_default_config), in their order of precedence
+DEFAULT_LOCATIONS = ["cwd/server_config.json", "cwd/mcp_config.json", "cwd/config.json",
+                     "home/.config/mcp/config.json", "home/.mcp_config.json"]
+CLI_CONFIG = ["existing", "missing", "invalid-json", "absent"]     # what --config names
+CLI_SERVER = ["given", "absent", "unknown"]                         # --server alpha | (default: sqlite) | nope
+CLI_FLAGS = ["run", "verbose", "list"]
+CLI_FORMS = ["long", "short", "equals"]                             # --config P --server S | -c P -s S | --config=P --server=S
+CLI_VIA = ["main", "process"]                                       # main() called in the worker | python -m chuk_mcp
+# every file holds the same three server names, each with its own witness, so the record says WHICH file was used
+CLI_SERVERS = [("alpha", ["a b"], {"A": "1"}), ("sqlite", [], ABSENT)]
+
+
+def cli_text(c: Dict[str, Any]) -> str:
+    dl = [DEFAULT_LOCATIONS[i] for i in c["defaults"]]
+    cfgs = {"existing": "--config <an existing file>", "missing": "--config <a file that does not exist>",
+            "invalid-json": "--config <a file that is not JSON>", "absent": "no --config"}[c["config"]]
+    srv = {"given": "--server alpha", "absent": "no --server (default 'sqlite')", "unknown": "--server nope"}[c["server"]]
+    flag = {"run": "", "verbose": " --verbose", "list": " --list-servers"}[c["flags"]]
+    how = "python -m chuk_mcp" if c.get("via") == "process" else "chuk_mcp.__main__.main()"
+    return (f"entry={how}: {cfgs} {srv}{flag} (option form: {c.get('form', 'long')}); default-location files present: "
+            f"{dl or 'none'}")
+
+
+def _cli_file(tmp: str, fid: str) -> Dict[str, Any]:
+    """A valid config file 'fid' with servers alpha / sqlite / only-in-<fid>; returns the document and the sinks."""
+    servers: Dict[str, Any] = {}
+    sinks: Dict[str, Dict[str, Any]] = {}
+    for name, args, env in CLI_SERVERS + [(f"only-in-{fid}", ["m"], ABSENT)]:
+        d = os.path.join(tmp, "files", fid, name)
+        os.makedirs(d)
+        script = os.path.join(d, "witness.py")
+        shutil.copyfile(WITNESS_SRC, script)
+        ent: Dict[str, Any] = {"command": WITNESS_PY, "args": [script] + list(args)}
+        if env is not ABSENT:
+            ent["env"] = dict(env)
+        servers[name] = ent
+        sinks[name] = {"dir": d, "exp_argv": [WITNESS_PY, script] + list(args), "env": env}
+    return {"doc": {"mcpServers": servers}, "sinks": sinks}
+
+
+def _run_cli_case(cfg: Dict[str, Any], tmp: str, pids: List[int]) -> Dict[str, Any]:
+    import logging
+    import subprocess
+
+    c = cfg["cli"]
+    via = c.get("via") or "main"
+    entry = "cli-" + via
+    cwd = os.path.join(tmp, "cwd")
+    home = os.path.join(tmp, "home")
+    named_dir = os.path.join(tmp, "named")
+    for d in (cwd, home, named_dir):
+        os.makedirs(d)
+    files: Dict[str, Dict[str, Any]] = {}
+    paths: Dict[str, str] = {}
+    for i in c["defaults"]:
+        fid = DEFAULT_LOCATIONS[i]
+        base, rel = fid.split("/", 1)
+        path = os.path.join(cwd if base == "cwd" else home, rel)
+        os.makedirs(os.path.dirname(path), exist_ok=True)
+        files[fid] = _cli_file(tmp, fid.replace("/", "_"))
+        paths[fid] = path
+        _write_config(path, json.dumps(files[fid]["doc"], ensure_ascii=False, indent=1), None)
+    named = None
+    if c["config"] == "existing":
+        named = os.path.join(named_dir, "my-servers.json")
+        files["named"] = _cli_file(tmp, "named")
+        _write_config(named, json.dumps(files["named"]["doc"], ensure_ascii=False, indent=1), None)
+    elif c["config"] == "missing":
+        named = os.path.join(named_dir, "not-there.json")
+    elif c["config"] == "invalid-json":
+        named = os.path.join(named_dir, "broken.json")
+        _write_config(named, INVALID_JSON[1][1], None)
+    # -- what the documentation promises
+    if c["config"] == "absent":
+        present = [DEFAULT_LOCATIONS[i] for i in sorted(c["defaults"])]
+        exp_file = present[0] if present else None       # first of the documented locations that exists
+        why_fail = None if present else "no configuration file anywhere"
+    elif c["config"] == "existing":
+        exp_file, why_fail = "named", None
+    else:
+        exp_file, why_fail = None, f"the named file is {c['config']}"
+    req_name = {"given": "alpha", "absent": "sqlite", "unknown": "nope"}[c["server"]]
+    listing = c["flags"] == "list"
+    if exp_file and not listing and c["server"] == "unknown":
+        why_fail = "the server name is not in the file"
+    exp_sink = None if (listing or why_fail) else (exp_file, req_name)
+
+    form = c.get("form") or "long"
+    argv: List[str] = []
+    if named is not None:
+        argv += {"long": ["--config", named], "short": ["-c", named], "equals": ["--config=" + named]}[form]
+    if c["server"] != "absent":
+        argv += {"long": ["--server", req_name], "short": ["-s", req_name], "equals": ["--server=" + req_name]}[form]
+    if c["flags"] == "verbose":
+        argv += ["--verbose"] if form != "short" else ["-v"]
+    if listing:
+        argv += ["--list-servers"] if form != "short" else ["-l"]
+
+    rec: Dict[str, Any] = {}
+    timed_out = False
+    marker = os.fsencode(tmp + os.sep)
+    printed = ""
+    with _parent_env():
+        os.environ["HOME"] = home
+        expected_default = {k: os.environ[k] for k in DEFAULT_NAMES}
+        if via == "main":
+            quiet = _Quiet(collect=False)
+            root_logger = logging.getLogger()
+            saved = (list(root_logger.handlers), root_logger.level, logging.getLogger("anyio").level, sys.argv, os.getcwd())
+            try:
+                with _Watchdog(CASE_LIMIT_S):
+                    with quiet:
+                        from chuk_mcp.__main__ import main
+                        sys.argv = ["chuk_mcp"] + argv
+                        os.chdir(cwd)
+                        try:
+                            main()
+                            rec["exit"] = 0
+                        except SystemExit as e:
+                            rec["exit"] = 0 if e.code is None else (e.code if isinstance(e.code, int) else 1)
+                        except Exception as e:  # noqa: BLE001
+                            rec["error"] = _exc_name(e)
+            except CaseTimeout:
+                timed_out = True
+            finally:
+                sys.argv = saved[3]
+                os.chdir(saved[4])
+                for h in list(root_logger.handlers):
+                    if h not in saved[0]:
+                        root_logger.removeHandler(h)
+                root_logger.setLevel(saved[1])
+                logging.getLogger("anyio").setLevel(saved[2])
+            printed = quiet.text()
+        else:
+            import chuk_mcp
+
+            src_root = os.path.dirname(os.path.dirname(os.path.abspath(chuk_mcp.__file__)))
+            env = {k: os.environ[k] for k in PARENT_ENV}
+            env.update({"PYTHONPATH": src_root, "PYTHONDONTWRITEBYTECODE": "1", "PYTHONHASHSEED": "0",
+                        "PYTHONIOENCODING": "utf-8"})
+            try:
+                p = subprocess.run([sys.executable, "-m", "chuk_mcp"] + argv, cwd=cwd, env=env, stdin=subprocess.DEVNULL,
+                                   stdout=subprocess.PIPE, stderr=subprocess.DEVNULL, timeout=CASE_LIMIT_S)
+                rec["exit"] = p.returncode
+                printed = p.stdout.decode("utf-8", "replace")
+            except subprocess.TimeoutExpired:
+                timed_out = True
+
+        # -- collect
+        launches: Dict[Tuple[str, str], List[Dict[str, Any]]] = {}
+        for fid, f in files.items():
+            for name, sk in f["sinks"].items():
+                launches[(fid, name)] = _launches_in(sk["dir"], pids)
+        _reap(pids, marker)
+
+    text = cli_text(c)
+    viol: List[Dict[str, Any]] = []
+
+    def norm(x: str) -> str:
+        return x.replace(tmp, "<TMP>").replace(WITNESS_PY, "<PY>")
+
+    def add(sig: Dict[str, Any], msg: str):
+        viol.append({"sig": sig, "msg": norm(f"{msg} :: {text}")})
+
+    diag = norm(printed).strip()
+    nd = len(c["defaults"])
+    dtag = "none" if nd == 0 else ("one" if nd == 1 else "several")
+    tag = {"entry": entry, "config": c["config"], "defaults": dtag}
+    if timed_out:
+        add({"class": "hang", **tag}, f"did not finish within {CASE_LIMIT_S:.0f} s")
+    if "error" in rec:
+        add({"class": "cli-raised", **tag, "error": rec["error"]}, f"main() let {rec['error']} escape")
+    n_launched = n_handshake = 0
+    for (fid, name), ls in launches.items():
+        if not ls:
+            continue
+        if (fid, name) != exp_sink:
+            if exp_file is None or fid != exp_file:
+                add({"class": "server-from-a-file-that-was-not-named", **tag, "used": fid, "flags": c["flags"]},
+                    f"server {name!r} of {fid} was launched {len(ls)} time(s); "
+                    + (f"expected a failure because {why_fail}" if why_fail else
+                       ("a listing launches nothing" if listing else f"the file to use is {exp_file}")))
+            else:
+                add({"class": "wrong-server-of-the-file", **tag}, f"server {name!r} of {fid} was launched, {req_name!r} was asked for")
+            continue
+        sk = files[fid]["sinks"][name]
+        n_launched += 1
+        if len(ls) > 1:
+            add({"class": "launched-more-than-once", **tag}, f"server {name!r} of {fid}: {len(ls)} launches")
+        L = ls[0]
+        exp_argv = [os.fsencode(x).hex() for x in sk["exp_argv"]]
+        if L["argv"] != exp_argv:
+            add({"class": "argv-mismatch", **tag}, f"child argv {_hexs(L['argv'])!r} != configured {_hexs(exp_argv)!r}")
+        got_env = {}
+        for k, v in L["env"].items():
+            try:
+                got_env[os.fsdecode(bytes.fromhex(k))] = os.fsdecode(bytes.fromhex(v))
+            except ValueError:
+                pass
+        want = dict(sk["env"]) if _with_values(sk["env"]) else dict(expected_default)
+        have = {k: got_env.get(k, ABSENT) for k in want}
+        if have != want:
+            add({"class": "env-mismatch", **tag, "env": "configured" if _with_values(sk["env"]) else "default"},
+                f"child environment restricted to the expected names is {have!r}, expected {want!r}")
+        conf_keys = set(sk["env"]) if _with_values(sk["env"]) else set()
+        leaked = sorted(k for k in CANARIES if k not in conf_keys and k in got_env)
+        if leaked:
+            add({"class": "env-leak", **tag}, f"parent-only variables {leaked!r} reached the child")
+        methods = [m for m, _ in L["methods"]]
+        if "initialize" in methods and "notifications/initialized" in methods[methods.index("initialize") + 1:]:
+            n_handshake += 1
+        else:
+            add({"class": "no-handshake", **tag}, f"the witness saw only {methods!r}; printed={diag[:160]!r}")
+    if exp_sink is not None and not launches.get(exp_sink):
+        add({"class": "not-launched", **tag, "server": c["server"]},
+            f"server {req_name!r} of {exp_file} was never launched (exit={rec.get('exit')}, printed={diag[:200]!r})")
+    if why_fail and not timed_out and "error" not in rec:
+        how = None
+        if rec.get("exit") == 0:
+            how = "exit-status-0"
+        elif not diag:
+            how = "silent"
+        if how:
+            add({"class": "cli-failure-not-reported", **tag, "server": c["server"], "flags": c["flags"], "how": how},
+                f"{why_fail}, but the command line ended with exit status {rec.get('exit')} and printed {diag[:200]!r}")
+    if listing and exp_file and not timed_out and "error" not in rec:
+        others = sorted(f for f in files if f != exp_file and f"only-in-{f.replace('/', '_')}" in printed)
+        mine = f"only-in-{exp_file.replace('/', '_')}" in printed
+        if others or not mine:
+            add({"class": "listing-from-another-file", **tag},
+                f"--list-servers should list {exp_file}; its marker server is {'shown' if mine else 'missing'}, markers of "
+                f"{others} are shown")
+    outcome = (f"{entry} {c['config']}/{c['server']}/{c['flags']} -> exit={rec.get('exit')} launched={n_launched} "
+               f"handshakes={n_handshake}" + (" TIMEOUT" if timed_out else ""))
+    return {"entry": entry, "case": text, "printed": diag[:400], "exit": rec.get("exit"), "error": rec.get("error"),
+            "launched": sorted(f"{fid}:{name}" for (fid, name), ls in launches.items() if ls), "outcome": outcome,
+            "violations": viol,
+            "counters": {"witness_launches": sum(len(x) for x in launches.values()), "handshakes_seen_by_witness": n_handshake}}
+
+
+def cli_configs(tier: str) -> Dict[str, List[Dict[str, Any]]]:
+    thorough = tier == "thorough"
+    n = len(DEFAULT_LOCATIONS)
+    all_subsets = [list(sub) for k in range(n + 1) for sub in itertools.combinations(range(n), k)]
+    few = [[]] + [[i] for i in range(n)] + [list(range(n))]
+    g: List[Dict[str, Any]] = []
+
+    def case(**kw):
+        return {"cli": {"config": kw["config"], "server": kw.get("server", "given"), "defaults": kw["defaults"],
+                        "flags": kw.get("flags", "run"), "form": kw.get("form", "long"), "via": kw.get("via", "main")}}
+
+    for server in CLI_SERVER:
+        for d in all_subsets:                                   # no --config: every subset of the five locations
+            g.append(case(config="absent", server=server, defaults=d))
+        for config in ("existing", "missing", "invalid-json"):  # a file is named: the locations must not matter
+            for d in (all_subsets if thorough else few):
+                g.append(case(config=config, server=server, defaults=d))
+    for config in CLI_CONFIG:
+        for d in (all_subsets if thorough else few):
+            g.append(case(config=config, defaults=d, flags="list"))
+    for config in ("existing", "missing", "absent"):
+        for d in ([], list(range(n))):
+            g.append(case(config=config, defaults=d, flags="verbose"))
+    for form in ("short", "equals"):
+        for config in ("existing", "missing"):
+            for d in ([], list(range(n))):
+                for flags in ("run", "list"):
+                    g.append(case(config=config, defaults=d, form=form, flags=flags))
+    # the real process: python -m chuk_mcp with cwd, HOME and environment given
+    pr = []
+    for config in ("existing", "missing", "absent"):
+        for d in [[], list(range(n))] + ([[3], [4]] if thorough else []):
+            pr.append(case(config=config, defaults=d, via="process"))
+    pr.append(case(config="existing", server="unknown", defaults=[], via="process"))
+    pr.append(case(config="existing", server="absent", defaults=[0], via="process"))
+    pr.append(case(config="invalid-json", defaults=list(range(n)), via="process"))
+    pr.append(case(config="missing", defaults=list(range(n)), flags="list", via="process"))
+    pr.append(case(config="absent", defaults=[2, 4], flags="list", via="process"))
+    return {"command-line-main": g, "command-line-real-process": pr}
+
+
+CMD_KINDS = ["plain", "interactive_mode", "chat_run", "interactive_mode-without-server_info", "raises", "keyboard-interrupt"]
 
 
 # ---------------------------------------------------------------------------
@@ -1140,6 +1476,22 @@ def configs_for(tier: str) -> Dict[str, Tuple[int, List[Dict[str, Any]]]]:
                 for kind in kinds:
                     by_children.setdefault(len(req), []).append(
                         {"entry": "run_command", "servers": servers, "request": req, "cmdkind": kind, "host_path": hp})
+    # (4b) what run_command does around the command function and with a server that cannot start
+    two = [R_SHAPES[1], R_SHAPES[2]]
+    for req in ([0], [0, 1], [1, 0]):
+        for kind in CMD_KINDS[2:]:
+            by_children.setdefault(len(req), []).append(
+                {"entry": "run_command", "servers": two, "request": req, "cmdkind": kind})
+    broken = [R_SHAPES[1], [0, 0, 0, 0, CANNOT_START, 0], R_SHAPES[2]]
+    for req in ([1], [0, 1], [1, 0], [0, 1, 2], [1, 2, 0], [2, 0, 1]):
+        for kind in (CMD_KINDS if thorough else ["plain", "interactive_mode", "raises"]):
+            n_ok = len([r for r in req if r != 1])
+            by_children.setdefault(max(1, n_ok), []).append(
+                {"entry": "run_command", "servers": broken, "request": req, "cmdkind": kind})
+    # the real 'python -m chuk_mcp' processes (command-line process + witness = two children) ride along with the
+    # two-children cases, so that the pool - with its bound on live children - runs them
+    cli = cli_configs(tier)
+    by_children.setdefault(2, []).extend(cli["command-line-real-process"])
     for k in sorted(by_children):
         parts[f"multi-server-{k}-child{'ren' if k > 1 else ''}"] = (k, by_children[k])
 
@@ -1180,6 +1532,10 @@ def configs_for(tier: str) -> Dict[str, Tuple[int, List[Dict[str, Any]]]]:
                     if s1 in file_states and s2 in file_states:
                         g.append({"sequence": [[s1, e1], [s2, e2]], "stamp": "same-size-same-mtime"})
     parts["call-sequences-on-one-path"] = (1, g)
+
+    # (8) the command line: main() with an argument vector, working directory and HOME (the real-process cases are in the
+    #     two-children part above)
+    parts["command-line-main"] = (1, cli["command-line-main"])
     return parts
 
 
@@ -1223,6 +1579,9 @@ def run(tier: str, only=None) -> core.Result:
         "env": ["absent" if e is ABSENT else e for _, e in ENVS[:N_BASE_ENVS]],
         "env_steering": [e for _, e in ENVS[N_BASE_ENVS:]],
         "sequence_states": SEQ_STATES,
+        "command_line": {"config": CLI_CONFIG, "server": CLI_SERVER, "flags": CLI_FLAGS, "option_forms": CLI_FORMS,
+                         "default_locations_in_order": DEFAULT_LOCATIONS, "via": CLI_VIA},
+        "run_command_command_functions": CMD_KINDS,
         "timeout": ["absent" if t is ABSENT else t for _, t in TIMEOUTS],
         "extra_keys": [n for n, _, _ in EXTRAS],
         "server_names_by_position": NAMES,
@@ -1265,6 +1624,14 @@ def run(tier: str, only=None) -> core.Result:
         "{valid A, valid B, invalid JSON, missing, valid but the server name absent} x every pair of entry points, "
         "file-to-file transitions also with identical size and restored mtime; the second call is judged exactly like the "
         "single-call case of s2.  "
+        "(8) the command line (chuk_mcp.__main__.main() with sys.argv, working directory and HOME set for the call; a few cases "
+        "as a real 'python -m chuk_mcp' process): no --config x every subset of the five documented default locations, "
+        "--config naming an existing / missing / non-JSON file x {no default file, each single one, all five} (thorough: "
+        "every subset) x --server given / absent (default 'sqlite') / unknown; --list-servers; --verbose; short and "
+        "'=' option forms; every file defines the same server names with its own witnesses, so the record shows which FILE "
+        "was used; run_command additionally with command functions named chat_run, an interactive_mode without the "
+        "server_info parameter, one that raises and one that raises KeyboardInterrupt, and with a server whose command "
+        "does not exist among working ones.  "
         "A case is non-trivial if it ran the entry point to completion; distinct = distinct observation digests "
         "(the observation contains the case description, what each witness recorded and what the entry point printed, "
         "with temp paths and the interpreter path normalised)"
@@ -1301,6 +1668,14 @@ def run(tier: str, only=None) -> core.Result:
         "call sequences have length 2, rewrite the file in place (same inode; ctime is not controlled) and run both calls in "
         "the same worker process; longer histories, replacement by rename and changes made while a call is in flight are "
         "not generated",
+        "command line: the order of find_default_config's list (server_config.json, mcp_config.json, config.json in the working "
+        "directory, then ~/.config/mcp/config.json, ~/.mcp_config.json) is taken as the documented precedence; a failure must "
+        "end with a non-zero exit status, print something and launch nothing; the exit status of a successful run and the "
+        "wording of messages are not judged; argparse usage errors are not generated; HOME, the working directory, sys.argv "
+        "and the root logger's handlers are set for the call and restored afterwards",
+        "a server whose command does not exist is expected not to start while run_command reports it and serves the others; "
+        "servers that start but never answer, and cleanup time-outs inside run_command, are not generated (they take the "
+        "library's 60 s / 2 s real time-outs)",
         "valid JSON that is not an object, entries without 'command', directories given as config path are outside the three "
         "malformed classes of the statement and not generated",
     ]
